@@ -401,6 +401,9 @@ func choose(rng *rand.Rand, policy string, pending []gateReq) int {
 		}
 	case "starve_cancel":
 		return pick(func(p gateReq) bool { return p.name != "cancel.async" })
+	case "saturate":
+		// let every ready callback reach the pool before any task finishes: workers busy, queue full, the rest blocked in enqueue
+		return pick(func(p gateReq) bool { return p.name != "task.run" && p.name != "cb.return" })
 	}
 	return rng.Intn(len(pending))
 }
@@ -432,7 +435,7 @@ func closure(deps [][]int, seed []int) []int {
 
 func genScenarios(seed int64, count, maxN int) []Scenario {
 	rng := rand.New(rand.NewSource(seed))
-	policies := []string{"random", "starve_walk", "walk_first", "prefer_complete", "prefer_cancel", "starve_cancel", "random", "starve_walk"}
+	policies := []string{"random", "starve_walk", "walk_first", "prefer_complete", "prefer_cancel", "starve_cancel", "random", "starve_walk", "saturate"}
 	var out []Scenario
 	for i := 0; i < count; i++ {
 		n := 1 + rng.Intn(maxN)
@@ -482,8 +485,24 @@ func genScenarios(seed int64, count, maxN int) []Scenario {
 		if fail == nil {
 			fail = []int{}
 		}
-		out = append(out, Scenario{ID: i + 1, N: n, Deps: deps, Selected: sel, FailFast: rng.Intn(2) == 0,
-			NumWorkers: 1 + rng.Intn(3), Fail: fail, ExtCancel: ext, Policy: policies[rng.Intn(len(policies))], Seed: rng.Int63()})
+		sc := Scenario{ID: i + 1, N: n, Deps: deps, Selected: sel, FailFast: rng.Intn(2) == 0,
+			NumWorkers: 1 + rng.Intn(3), Fail: fail, ExtCancel: ext, Policy: policies[rng.Intn(len(policies))], Seed: rng.Int63()}
+		if i%9 == 4 && maxN >= 4 {
+			// saturated pool at the moment the walk ends: a wide graph, few workers, every callback parked in the pool, then a
+			// fail-fast failure or an external cancellation (Execute's deferred Shutdown closes the queue under blocked senders)
+			w := 4 + rng.Intn(maxN-3)
+			sc.N, sc.Deps, sc.Selected, sc.NumWorkers, sc.Policy = w, make([][]int, w), nil, 1+rng.Intn(2), "saturate"
+			for k := 1; k <= w; k++ {
+				sc.Deps[k-1] = []int{}
+				sc.Selected = append(sc.Selected, k)
+			}
+			if rng.Intn(2) == 0 {
+				sc.FailFast, sc.Fail, sc.ExtCancel = true, []int{1 + rng.Intn(w)}, -1
+			} else {
+				sc.Fail, sc.ExtCancel = []int{}, 4*w+rng.Intn(2*w)
+			}
+		}
+		out = append(out, sc)
 	}
 	return out
 }
@@ -492,7 +511,7 @@ func genScenarios(seed int64, count, maxN int) []Scenario {
 // node chosen by the seed (keep-going twice as often as fail-fast): graph shapes are covered systematically, schedules sampled.
 func allDags(seed int64, n int) []Scenario {
 	rng := rand.New(rand.NewSource(seed))
-	policies := []string{"random", "starve_walk", "walk_first", "prefer_complete", "prefer_cancel", "starve_cancel"}
+	policies := []string{"random", "starve_walk", "walk_first", "prefer_complete", "prefer_cancel", "starve_cancel", "saturate"}
 	type edge struct{ from, to int }
 	var edges []edge
 	for to := 2; to <= n; to++ {
@@ -564,7 +583,18 @@ func TestDrive(t *testing.T) {
 	}
 	results := make([]Result, 0, len(scs))
 	for _, sc := range scs {
-		results = append(results, runScenario(t, sc))
+		// a subtest per scenario: a race report makes synctest.Test end its caller (FailNow); only this scenario's test ends
+		var r *Result
+		t.Run(fmt.Sprint("s", sc.ID), func(t *testing.T) {
+			defer func() {
+				if r == nil {
+					r = &Result{ID: sc.ID, Cfg: sc, Outcome: "aborted", Detail: "the test framework ended the scenario (race report)"}
+				}
+			}()
+			x := runScenario(t, sc)
+			r = &x
+		})
+		results = append(results, *r)
 	}
 	b, err := json.Marshal(results)
 	if err != nil {
